@@ -385,6 +385,7 @@ class Sigma:
         mem = I.find_member(netcls, "__init__")
         I.call_function(mem[1], [net, sc], {})
         net.fresh = False
+        mark_preexisting(net)
         net.hidden = set()
         for name in mutable_fields(netcls):
             if name in net.fields:
@@ -662,3 +663,32 @@ def havoc_like(I, v, base):
         c.fresh = False
         return c
     return Opaque(base)
+
+
+def mark_preexisting(root, depth=4):
+    """everything a harness constructor allocated exists before the function under contract runs"""
+    from pyvc.values import PySet
+    seen = set()
+
+    def walk(v, d):
+        if id(v) in seen or d < 0:
+            return
+        seen.add(id(v))
+        if isinstance(v, Obj):
+            v.fresh = False
+            for x in v.fields.values():
+                walk(x, d - 1)
+        elif isinstance(v, (PyList, PySet)):
+            v.fresh = False
+            for x in v.items:
+                walk(x, d - 1)
+        elif isinstance(v, PyDict):
+            v.fresh = False
+            for x in v.d.values():
+                walk(x, d - 1)
+        elif isinstance(v, NpArr):
+            v.cell.fresh = False
+        elif isinstance(v, tuple):
+            for x in v:
+                walk(x, d - 1)
+    walk(root, depth)
